@@ -213,7 +213,8 @@ theorem sumStep_nonnum (ns : List Num) (e : CV) (he : e = .backfill ∨ ∃ s, e
 (while the integer part cannot wrap) -/
 theorem foldRB_sum (vs : List Val) (h : absIntSum (nums noParse vs) < 9223372036854775808) :
     (vs = [] ∧ foldRB exact vs = none) ∨
-    (∃ b, foldRB exact vs = some b ∧ b.n = vs.length ∧ vs ≠ [] ∧ b.sum = rbSum (nums noParse vs)) := by
+    (∃ b, foldRB exact vs = some b ∧ b.n = vs.length ∧ vs ≠ [] ∧ b.sum = rbSum (nums noParse vs) ∧
+      b.nc = (nums noParse vs).length) := by
   induction vs using snocInd with
   | nil => left; exact ⟨rfl, rfl⟩
   | append_singleton vs v ih =>
@@ -231,18 +232,28 @@ theorem foldRB_sum (vs : List Val) (h : absIntSum (nums noParse vs) < 9223372036
       | int i => simpa [numOf, Val.toCV] using sumSpec_snoc_int _ i (by simpa [numOf] using h)
       | flt f => simpa [numOf, Val.toCV] using sumSpec_snoc_flt _ f hprev
       | str s => simpa [numOf, Val.toCV, noParse] using sumStep_nonnum _ (.str s) (Or.inr ⟨s, rfl⟩)
-    rcases ih hprev with ⟨hnil, hnone⟩ | ⟨b, hb, hn, _, hs⟩
+    have hnc : ∀ k : Nat, k = (nums noParse vs).length →
+        k + (if v.toCV.isNumeric then 1 else 0) = (nums noParse (vs ++ [v])).length := by
+      intro k hk
+      subst hk
+      rw [nums_snoc]
+      cases v <;> simp [numOf, Val.toCV, CV.isNumeric, noParse]
+    rcases ih hprev with ⟨hnil, hnone⟩ | ⟨b, hb, hn, _, hs, hc⟩
     · subst hnil
       rw [hnone]
-      refine ⟨_, rfl, by simp [newRB], by simp, ?_⟩
-      have := hsum .backfill (by simp [rbSum])
-      simp only [Option.getD, newRB]
-      rw [← this]
-      cases v <;> simp [sumStep, Val.toCV]
+      refine ⟨_, rfl, by simp [newRB], by simp, ?_, ?_⟩
+      · have := hsum .backfill (by simp [rbSum])
+        simp only [Option.getD, newRB]
+        rw [← this]
+        cases v <;> simp [sumStep, Val.toCV]
+      · simp only [Option.getD, newRB]
+        exact hnc 0 (by simp)
     · rw [hb]
-      refine ⟨_, rfl, by simp [hn], by simp, ?_⟩
-      simp only [Option.getD]
-      exact hsum b.sum hs
+      refine ⟨_, rfl, by simp [hn], by simp, ?_, ?_⟩
+      · simp only [Option.getD]
+        exact hsum b.sum hs
+      · simp only [Option.getD]
+        exact hnc b.nc hc
 
 theorem sumStep_toCV (x y : Num) : sumStep exact x.toCV y.toCV = (addSum exact x y).toCV := by
   cases x <;> cases y <;> simp [sumStep, addSum, Num.toCV]
@@ -270,23 +281,23 @@ theorem sumStep_rbSum (nx ny : List Num) (h : absIntSum (nx ++ ny) < 92233720368
       simp only [ex, ey, e3, Bool.false_eq_true, if_false]
       rw [sumStep_toCV, addSum_sumSpec nx ny h]
 
-/-- bucket merge: record counts add up, Sum cells merge to the Sum cell of the concatenation — every pair of lists -/
+/-- bucket merge: record counts and numeric counts add up, Sum cells merge to the Sum cell of the concatenation — every pair of lists -/
 theorem mergeRB_n_sum (xs ys : List Val) (h : absIntSum (nums noParse (xs ++ ys)) < 9223372036854775808) :
-    (mergeRB exact (foldRB exact xs) (foldRB exact ys)).map (fun b => (b.n, b.sum)) =
-      (foldRB exact (xs ++ ys)).map (fun b => (b.n, b.sum)) := by
+    (mergeRB exact (foldRB exact xs) (foldRB exact ys)).map (fun b => (b.n, b.sum, b.nc)) =
+      (foldRB exact (xs ++ ys)).map (fun b => (b.n, b.sum, b.nc)) := by
   have hx : absIntSum (nums noParse xs) < 9223372036854775808 := by
     rw [nums_append, absIntSum_append] at h; omega
   have hy : absIntSum (nums noParse ys) < 9223372036854775808 := by
     rw [nums_append, absIntSum_append] at h; omega
-  rcases foldRB_sum xs hx with ⟨rfl, hxn⟩ | ⟨a, ha, han, hxne, has⟩
+  rcases foldRB_sum xs hx with ⟨rfl, hxn⟩ | ⟨a, ha, han, hxne, has, hac⟩
   · rw [hxn]; simp [mergeRB]
-  · rcases foldRB_sum ys hy with ⟨rfl, hyn⟩ | ⟨b, hb, hbn, hyne, hbs⟩
+  · rcases foldRB_sum ys hy with ⟨rfl, hyn⟩ | ⟨b, hb, hbn, hyne, hbs, hbc⟩
     · rw [hyn, ha]; simp [mergeRB, ha]
-    · rcases foldRB_sum (xs ++ ys) h with ⟨hnil, _⟩ | ⟨c, hc, hcn, _, hcs⟩
+    · rcases foldRB_sum (xs ++ ys) h with ⟨hnil, _⟩ | ⟨c, hc, hcn, _, hcs, hcc⟩
       · exact absurd (List.append_eq_nil_iff.mp hnil).1 hxne
       · rw [ha, hb, hc]
-        rw [nums_append] at h hcs
+        rw [nums_append] at h hcs hcc
         simp only [mergeRB, Option.map]
-        rw [han, hbn, hcn, has, hbs, hcs, sumStep_rbSum _ _ h, List.length_append]
+        rw [han, hbn, hcn, has, hbs, hcs, hac, hbc, hcc, sumStep_rbSum _ _ h, List.length_append, List.length_append]
 
 end SigModel.Stats
